@@ -219,7 +219,10 @@ def run(ctx):
                 "non-trivial iff ≥ 2 packet-number spaces/directions are interleaved. Distinct = distinct case tuples.")
     ctx.assumptions = ["QuicSession.get_full_packet_number is driven on a bare object with duck-typed packets "
                        "(isserver, packet_type, packet_num) — the way decrypt_packet calls it"]
-    ctx.prove(["TLX.Props.C16"])
+    import translate                 # decision-logic functions re-translated from the source and proved equal to the model
+    _tm, _tt = translate.wire(ctx, "C16")
+    ctx.prove(["TLX.Props.C16"] + _tm)
+    ctx.require_theorems(_tt)
     ctx.require_theorems(THEOREMS)
     explore(ctx)
     return ctx.finish(search=lambda c: explore(c, scale=4))
